@@ -2,6 +2,7 @@ import Clikit.Drv.C01
 import Clikit.Model.Help
 import Clikit.Model.HelpWrap
 import Clikit.Model.HelpWired
+import Clikit.Model.AppHelp
 /-! Driver entries of the help-page model: `c13.app_help`, `c13.command_help`, `c13.target`,
 `c13.wrap`, `c13.all` (all of a case in one request), `c13.wired` (do the structural hypotheses of
 `Props/C13.help_same_page_default` hold for the tree?).  Pages are rendered with `wrapH`. -/
@@ -79,6 +80,19 @@ def targetWraps (app : HApp) (w : Nat) : Target → List (Int × Str)
     | none => []
     | some (x, c) => wrapCalls w (commandHelp app x c)
 
+/-- the environment / handlers of the composed run model (`Model/AppHelp.lean`): a help run invokes no handler and
+reports no error, so these are never consulted for the lines of this property -/
+def env0 : App.Env := { debug := false, render := fun _ => true }
+def hs0 : App.Handlers := fun _ _ => .ret App.ret0
+
+/-- what the composed model `App.helpRun` says of the run: is the outcome a help page, the status, the number of
+handlers invoked, and the text printed (`null`: the outcome is no help page) -/
+def jHelpRun (r : App.Result × Option (Except Err Str)) : Json :=
+  Json.mkObj [("help_page", .bool (match r.1.what with | .helpPage _ => true | _ => false)),
+              ("status", match r.1.status with | some n => jNat n | none => .null),
+              ("invoked", jNat r.1.invoked.length),
+              ("text", match r.2 with | some x => jExcept jStr x | none => .null)]
+
 /-- target of a line and the text it prints; `withWraps`: also the (width, text) pairs handed to
 `textwrap.wrap` (asked for when the direct renderings of the case use another indentation, so that
 their wrap calls say nothing about the page the run prints) -/
@@ -87,7 +101,8 @@ def targetOf (cv : Conv) (app : HApp) (w : Nat) (withWraps : Bool) (toks : List 
   | .error e => jErr e
   | .ok none => jOk .null
   | .ok (some t) =>
-    jOk (Json.mkObj ([("target", jTarget t), ("page", jExcept jStr (renderTarget wrapH w app t))] ++
+    jOk (Json.mkObj ([("target", jTarget t), ("page", jExcept jStr (renderTarget wrapH w app t)),
+                      ("run", jHelpRun (App.helpRun wrapH w env0 cv app hs0 toks))] ++
       (if withWraps then
         [("wraps", jList (fun (c : Int × Str) => Json.arr #[jInt c.1, jStr c.2]) (targetWraps app w t))]
        else [])))
